@@ -1,6 +1,48 @@
 """C09 - bit operations follow infinite two's-complement semantics."""
+import os
+import sys
 import core
 from core import hx, gen_int, gen_mag, gen_words_len
+
+# coq/gen/BitsFormsGen.v (Small/Large dispatch of the 16 TypedRepr bit-operator impls, the Big x primitive instance
+# table, the operand handling of the operator-form macros, the buffer requests of the bit kernels) is regenerated from
+# integer/src/{bits.rs,shift_ops.rs,helper_macros.rs} when this plug-in is imported, i.e. before the proof phase of every
+# run (tools/translate.py is shared; it regenerates SignTables.v).  coq/theories/Int/BitsFormsGenProof.v proves the
+# hand-written models equal to / sound for it.  Unparseable source is not an alarm: the previous copy stays (marked
+# STALE), the status goes into the evidence and the correspondence run alone ties the models.
+sys.path.insert(0, os.path.join(core.ROOT, "tools"))
+try:
+    import translate_c09_r3
+    FORMS_GEN_STATUS = translate_c09_r3.generate(core.REPO, os.path.join(core.COQ, "gen"))
+except Exception as _ex:  # the generator itself broke: same fallback as an unparseable source
+    FORMS_GEN_STATUS = "unparsed generator-failed: %s" % str(_ex)[:200]
+
+
+def extra_phase(tier, seed, exes, oracle):
+    word = FORMS_GEN_STATUS.split(" ", 1)[0]
+    return {
+        "evaluations": 0,
+        "hist": {"translator_c09:BitsFormsGen:" + word: 1},
+        "nontrivial": [],
+        "samples": [{"fragment": "coq/gen/BitsFormsGen.v (tools/translate_c09_r3.py from integer/src/bits.rs, shift_ops.rs, helper_macros.rs)",
+                     "status": FORMS_GEN_STATUS,
+                     "tied_by": "C09_gen_bitand/bitor/bitxor/and_not_is_model, C09_gen_dispatch_correct, C09_gen_prim_table_ok, "
+                                "C09_prim_forms_table_correct, C09_gen_form_arms_ok, C09_gen_shift_arms_ok, C09_bit_kernel_requests_exact, "
+                                "C09_shl_large_in_place_test" if word == "ok"
+                                else "correspondence run only (source not parsed; previous copy marked STALE)"}],
+        "failures": [],
+    }
+
+
+# every case runs against the 64-bit build and the force_bits="32" build; `lay.` cases report the word size and the
+# layout of the result, so the oracle runs the word-level models at the word size of each build
+CONFIGS = ["default", "w32"]
+
+
+def canon_answer(ans):
+    """the value part of an answer must agree between the builds; the layout tokens (L<bits>:...) are per build"""
+    return " ".join(t for t in ans.split() if not t.startswith("L"))
+
 
 ID = "C09"
 READY = True
@@ -58,11 +100,21 @@ ASSUMPTIONS = [
 ]
 
 
+def operand(rng, tier, signed=True):
+    """an operand from the 64-bit word-count classes, or (1 in 4) from the 32-bit ones: 1, 2, 3 words of the w32 build"""
+    if rng.chance(1, 4):
+        v = gen_mag(rng, rng.choice([1, 2, 2, 3, 3, 4, 5, 6, 7]), 32)
+        return -v if signed and rng.chance(1, 2) else v
+    return gen_int(rng, tier) if signed else abs(gen_int(rng, tier))
+
+
 def positions(rng, a):
     nb = abs(a).bit_length()
-    c = [0, 1, 2, 63, 64, 65, 127, 128, 129, 191, 192, 193, nb - 1, nb, nb + 1, nb + 63, nb + 64, nb + 65, nb + 130, 2 * nb + 7]
+    c = [0, 1, 2, 31, 32, 33, 63, 64, 65, 95, 96, 97, 127, 128, 129, 191, 192, 193, nb - 1, nb, nb + 1, nb + 31, nb + 32, nb + 33,
+         nb + 63, nb + 64, nb + 65, nb + 130, 2 * nb + 7]
     if nb > 64:
-        c += [64 * rng.range(1, nb // 64), 64 * rng.range(1, nb // 64) + rng.choice([-1, 1]), rng.below(nb)]
+        c += [64 * rng.range(1, nb // 64), 64 * rng.range(1, nb // 64) + rng.choice([-1, 1]), rng.below(nb),
+              32 * rng.range(1, nb // 32), 32 * rng.range(1, nb // 32) + rng.choice([-1, 1])]
     # position of the lowest set bit and its neighbours
     if a != 0:
         tz = (abs(a) & -abs(a)).bit_length() - 1
@@ -71,17 +123,25 @@ def positions(rng, a):
     return max(0, p)
 
 
+OWN = ["", "_vr", "_rv", "_rr"]
+OWN_AS = OWN + ["_as", "_asr"]
+PFORMS = ["bv", "rv", "bvr", "rvr", "pb", "pr", "rpb", "rpr", "as", "asr"]
+SHIFT_FORMS = ["", "_r", "_pr", "_rpr", "_assign", "_assign_pr"]
+UNSIGNED_T = {"u8": 8, "u16": 16, "u32": 32, "u64": 64, "usize": 64, "u128": 128}
+SIGNED_T = {"i8": 8, "i16": 16, "i32": 32, "i64": 64, "isize": 64, "i128": 128}
+
+
+def lay(rng, text):
+    """half of the big-valued cases also ask for the layout of the result (Repr compared word for word)"""
+    return "lay." + text if rng.chance(1, 2) else text
+
+
 def gen_cases(rng, tier, n):
     out = []
-    binops = ["and", "or", "xor", "and_rr", "or_rr", "xor_rr", "and_vr", "or_vr", "xor_vr", "and_rv", "or_rv", "xor_rv"]
-    ubin = ["uand", "uor", "uxor", "uand_rv", "uor_vr", "uxor_rr", "uand_vr", "uand_rr", "uor_rv", "uor_rr", "uxor_vr", "uxor_rv"]
-    mixed = ["and_ui", "and_iu", "or_ui", "or_iu", "xor_ui", "xor_iu"]
-    unsigned_t = ["u8", "u16", "u32", "u64", "u128", "usize"]
-    signed_t = ["i8", "i16", "i32", "i64", "i128", "isize"]
     while len(out) < n:
         k = rng.below(100)
-        if k < 22:
-            a = gen_int(rng, tier)
+        if k < 20:
+            a = operand(rng, tier)
             # second operand: often of a related length / related value
             r = rng.below(6)
             if r == 0:
@@ -91,72 +151,77 @@ def gen_cases(rng, tier, n):
             elif r == 2:
                 b = gen_mag(rng, max(1, (abs(a).bit_length() + 63) // 64)) * rng.choice([1, -1])
             else:
-                b = gen_int(rng, tier)
-            out.append("%s %s %s" % (rng.choice(binops), hx(a), hx(b)))
-        elif k < 30:
-            a, b = abs(gen_int(rng, tier)), abs(gen_int(rng, tier))
-            out.append("%s %s %s" % (rng.choice(ubin), hx(a), hx(b)))
-        elif k < 38:
-            op = rng.choice(mixed)
-            u, i = abs(gen_int(rng, tier)), gen_int(rng, tier)
-            out.append("%s %s %s" % (op, hx(u), hx(i)) if op.endswith("_ui") else "%s %s %s" % (op, hx(i), hx(u)))
+                b = operand(rng, tier)
+            out.append(lay(rng, "%s%s %s %s" % (rng.choice(["and", "or", "xor"]), rng.choice(OWN_AS), hx(a), hx(b))))
+        elif k < 29:
+            a, b = operand(rng, tier, False), operand(rng, tier, False)
+            if rng.chance(1, 4):
+                b = a ^ rng.choice([1, 1 << 64, (1 << 128) - 1, a >> 64 << 64])  # results that shrink to fewer words
+            out.append(lay(rng, "%s%s %s %s" % (rng.choice(["uand", "uor", "uxor"]), rng.choice(OWN_AS), hx(a), hx(b))))
+        elif k < 37:
+            base = rng.choice(["and_ui", "and_iu", "or_ui", "or_iu", "xor_ui", "xor_iu"])
+            sfx = rng.choice(OWN if base in ("or_ui", "xor_ui") else OWN_AS)
+            u, i = operand(rng, tier, False), operand(rng, tier)
+            out.append(lay(rng, "%s%s %s %s" % (base, sfx, hx(u), hx(i)) if base.endswith("_ui") else "%s%s %s %s" % (base, sfx, hx(i), hx(u))))
         elif k < 44:
-            ty = rng.choice(unsigned_t)
-            bits = {"u8": 8, "u16": 16, "u32": 32, "u64": 64, "usize": 64, "u128": 128}[ty]
-            p = rng.choice([0, 1, (1 << bits) - 1, 1 << (bits - 1), rng.bits(bits)])
+            ty = rng.choice(sorted(UNSIGNED_T))
+            bits = UNSIGNED_T[ty]
+            p = rng.choice([0, 1, (1 << bits) - 1, 1 << (bits - 1), rng.bits(bits), rng.bits(bits)])
+            f, form = rng.choice(["and", "or", "xor"]), rng.choice(PFORMS)
             if rng.chance(1, 2):
-                out.append("%s %s %s %s" % (rng.choice(["uand_p", "uor_p", "uxor_p"]), ty, hx(abs(gen_int(rng, tier))), hx(p)))
+                out.append(lay(rng, "pu.%s.%s %s %s %s" % (f, form, ty, hx(operand(rng, tier, False)), hx(p))))
             else:
-                out.append("%s %s %s %s" % (rng.choice(["iand_pu", "ior_pu", "ixor_pu"]), ty, hx(gen_int(rng, tier)), hx(p)))
+                out.append(lay(rng, "pi.%s.%s %s %s %s" % (f, form, ty, hx(operand(rng, tier)), hx(p))))
         elif k < 48:
-            ty = rng.choice(signed_t)
-            bits = {"i8": 8, "i16": 16, "i32": 32, "i64": 64, "isize": 64, "i128": 128}[ty]
+            ty = rng.choice(sorted(SIGNED_T))
+            bits = SIGNED_T[ty]
             p = rng.choice([0, 1, -1, (1 << (bits - 1)) - 1, -(1 << (bits - 1)), rng.bits(bits - 1), -rng.bits(bits - 1)])
-            out.append("%s %s %s %s" % (rng.choice(["iand_pi", "ior_pi", "ixor_pi"]), ty, hx(gen_int(rng, tier)), hx(p)))
+            out.append(lay(rng, "ps.%s.%s %s %s %s" % (rng.choice(["and", "or", "xor"]), rng.choice(PFORMS), ty, hx(operand(rng, tier)), hx(p))))
         elif k < 52:
-            out.append("%s %s" % (rng.choice(["not", "not_r"]), hx(gen_int(rng, tier))))
+            out.append(lay(rng, "%s %s" % (rng.choice(["not", "not_r"]), hx(operand(rng, tier)))))
         elif k < 66:
-            a = gen_int(rng, tier)
-            op = rng.choice(["shl", "shr", "shr", "shr_r", "shl_r", "shr_assign"])
-            out.append("%s %s %x" % (op, hx(a), positions(rng, a)))
+            a = operand(rng, tier)
+            op = rng.choice(["shl", "shr", "shr"]) + rng.choice(SHIFT_FORMS)
+            out.append(lay(rng, "%s %s %x" % (op, hx(a), positions(rng, a))))
         elif k < 72:
-            a = abs(gen_int(rng, tier))
-            out.append("%s %s %x" % (rng.choice(["ushl", "ushr", "ushl_r", "ushr_r", "ushl_assign"]), hx(a), positions(rng, a)))
+            a = operand(rng, tier, False)
+            out.append(lay(rng, "%s%s %s %x" % (rng.choice(["ushl", "ushr"]), rng.choice(SHIFT_FORMS), hx(a), positions(rng, a))))
         elif k < 78:
-            a = gen_int(rng, tier)
+            a = operand(rng, tier)
             if rng.chance(1, 2):
                 out.append("bit %s %x" % (hx(a), positions(rng, a)))
             else:
                 out.append("ubit %s %x" % (hx(abs(a)), positions(rng, a)))
         elif k < 81:
-            a = gen_int(rng, tier)
+            a = operand(rng, tier)
             out.append(rng.choice(["bit_len %s" % hx(a), "ubit_len %s" % hx(abs(a))]))
         elif k < 86:
-            a = abs(gen_int(rng, tier))
-            out.append("%s %s %x" % (rng.choice(["set_bit", "clear_bit"]), hx(a), positions(rng, a)))
+            a = operand(rng, tier, False)
+            out.append(lay(rng, "%s %s %x" % (rng.choice(["set_bit", "clear_bit"]), hx(a), positions(rng, a))))
         elif k < 92:
-            a = gen_int(rng, tier)
+            a = operand(rng, tier)
             r = rng.below(4)
             if r == 1:
                 # low word exactly 1 (or 0/2/3) under zero words: the shifted-by-one scan of trailing_ones_neg restarts at word 1
-                a = (abs(a) << rng.choice([64, 128, 192, 193, 255])) | rng.choice([1, 1, 1, 0, 2, 3])
+                a = (abs(a) << rng.choice([32, 64, 96, 128, 192, 193, 255])) | rng.choice([1, 1, 1, 0, 2, 3])
                 a = -a if rng.chance(2, 3) else a
             if r == 0:
                 # low part all ones / zeros to stress the word scans
-                low = rng.choice([64, 65, 127, 128, 129, 192, 200])
+                low = rng.choice([32, 33, 64, 65, 96, 127, 128, 129, 192, 200])
                 a = (abs(a) << low) | ((1 << low) - 1) if rng.chance(1, 2) else abs(a) << low
                 a = a if rng.chance(1, 2) else -a
             op = rng.choice(["utz", "uto", "tz", "to", "count_ones", "count_zeros"])
             out.append("%s %s" % (op, hx(abs(a) if op[0] in "uc" else a)))
         elif k < 96:
-            a = abs(gen_int(rng, tier))
-            out.append("%s %s %x" % (rng.choice(["split_bits", "clear_high_bits"]), hx(a), positions(rng, a)))
+            a = operand(rng, tier, False)
+            out.append(lay(rng, "%s %s %x" % (rng.choice(["split_bits", "clear_high_bits"]), hx(a), positions(rng, a))))
         elif k < 98:
-            a = abs(gen_int(rng, tier))
+            a = operand(rng, tier, False)
             if rng.chance(1, 3) and a:
                 a = 1 << (a.bit_length() - 1)
                 a += rng.choice([0, 0, 1, -1])
-            out.append("%s %s" % (rng.choice(["is_pow2", "next_pow2"]), hx(max(a, 0))))
+            op = rng.choice(["is_pow2", "next_pow2"])
+            out.append("%s %s" % (op, hx(max(a, 0))) if op == "is_pow2" else lay(rng, "%s %s" % (op, hx(max(a, 0)))))
         else:
-            out.append("ones %x" % rng.choice([0, 1, 63, 64, 65, 127, 128, 129, 191, 192, 193, rng.below(1000)]))
+            out.append(lay(rng, "ones %x" % rng.choice([0, 1, 31, 32, 33, 63, 64, 65, 95, 96, 97, 127, 128, 129, 191, 192, 193, rng.below(1000)])))
     return out
